@@ -149,6 +149,7 @@ func init() {
 			return tuple{len(b), iface{}}
 		},
 		"(*os.File).Close": func(fr *frame, args []value) value { return iface{} },
+		"errors.Is": extErrorsIs,
 		"math/rand.Seed": func(fr *frame, args []value) value {
 			// the seed given to the generator is part of what a run depends on
 			ps := fr.i.ps
@@ -359,6 +360,43 @@ func init() {
 
 func extNop(fr *frame, args []value) value        { return nil }
 func extDiscardNil(fr *frame, args []value) value { return nil }
+
+// extErrorsIs: errors.Is without reflection - identity of comparable error
+// values, the Is(error) bool method, and Unwrap() error chains.
+func extErrorsIs(fr *frame, args []value) value {
+	err, _ := args[0].(iface)
+	target, _ := args[1].(iface)
+	for depth := 0; depth < 64; depth++ {
+		if err.t == nil {
+			return target.t == nil
+		}
+		if target.t != nil && types.Identical(err.t, target.t) && types.Comparable(err.t) && equals(fr.i.ps, err.t, err.v, target.v) {
+			return true
+		}
+		lookup := func(name string) *ssa.Function {
+			sel := fr.i.prog.MethodSets.MethodSet(err.t).Lookup(nil, name)
+			if sel == nil {
+				return nil
+			}
+			return fr.i.prog.MethodValue(sel)
+		}
+		if m := lookup("Is"); m != nil && m.Signature.Params().Len() == 1 && m.Signature.Results().Len() == 1 {
+			if r, ok := call(fr.i, fr, token.NoPos, m, []value{err.v, target}).(bool); ok && r {
+				return true
+			}
+		}
+		m := lookup("Unwrap")
+		if m == nil || m.Signature.Params().Len() != 0 || m.Signature.Results().Len() != 1 {
+			return false
+		}
+		next, ok := call(fr.i, fr, token.NoPos, m, []value{err.v}).(iface)
+		if !ok {
+			return false
+		}
+		err = next
+	}
+	return false
+}
 
 // sinkFile: the *os.File the cmd harness stubs hand out as output file (nil if none).
 func (i *interpreter) sinkFile() *value {
